@@ -15,6 +15,13 @@ def main():
     tier = 'thorough' if '--thorough' in sys.argv else 'quick'
     ids = [a for a in sys.argv[1:] if not a.startswith('--')]
     props = sorted(f[:-3] for f in os.listdir(os.path.join(VERIF, 'sa', 'props')) if f.startswith('C') and f.endswith('.py'))
+    # baseline: violation lines of every check on the unmodified tree (pending findings must not count as "caught")
+    baseline = {}
+    for p in props:
+        rc, out = sh('./check %s --no-evidence --quiet --tier %s --scratch /tmp' % (p, tier), cwd=VERIF)
+        baseline[p] = {l.strip().split(' — ')[0].split(' ', 2)[-1] for l in out.splitlines() if l.startswith('  ') and ' — ' in l}
+        if rc == 2:
+            baseline[p] = None
     for sid in ids:
         d = os.path.join(VERIF, 'seeded', sid)
         meta = json.load(open(os.path.join(d, 'meta.json')))
@@ -36,7 +43,10 @@ def main():
             for p in props:
                 rc, out = sh('./check %s --no-evidence --quiet --tier %s --scratch /tmp --repo %s' % (p, tier, scratch), cwd=VERIF)
                 lines = [l for l in out.splitlines() if l.startswith('  ') and ' — ' in l]
-                if rc == 1:
+                if baseline.get(p) is None:
+                    continue
+                lines = [l for l in lines if l.strip().split(' — ')[0].split(' ', 2)[-1] not in baseline[p]]
+                if rc == 1 and lines:
                     caught[p] = [l.strip()[:300] for l in lines][:4]
                 elif rc == 2:
                     caught[p] = ['ANALYSIS-ERROR: ' + out.strip()[-300:]]
